@@ -657,3 +657,6 @@ fn report_exit(reason: &eyre::Result<&str>, message: &str) {
         Err(error) => error!(%error, message),
     }
 }
+
+#[cfg(feature = "verif")]
+pub(super) mod verif_hooks;
